@@ -326,7 +326,13 @@ func Unwrap(v ssa.Value) ssa.Value {
 // extraction (kept as Extract), type assertions. Roots are Parameters,
 // Calls, Extracts, Consts, Allocs (as address), FreeVars that cannot be
 // resolved, Globals, field loads etc.
-func Sources(v ssa.Value) []ssa.Value {
+func Sources(v ssa.Value) []ssa.Value { return sources(v, true) }
+
+// SourcesOpaque is Sources without looking through local closures / unseen helpers: parameters and call results
+// stay roots. For rules that match a particular parameter of the function they are analysing.
+func SourcesOpaque(v ssa.Value) []ssa.Value { return sources(v, false) }
+
+func sources(v ssa.Value, transparent bool) []ssa.Value {
 	seen := map[ssa.Value]bool{}
 	var out []ssa.Value
 	var visit func(v ssa.Value)
@@ -355,7 +361,7 @@ func Sources(v ssa.Value) []ssa.Value {
 				visit(ta.X)
 				return
 			}
-			if call, ok := x.Tuple.(*ssa.Call); ok && !IsErrorType(x.Type()) {
+			if call, ok := x.Tuple.(*ssa.Call); ok && transparent && !IsErrorType(x.Type()) {
 				// (error results stay opaque: which error a caller sees is decided by its own nil tests)
 				if f := TransparentCallee(call); f != nil {
 					for _, r := range Returns(f) {
@@ -368,7 +374,7 @@ func Sources(v ssa.Value) []ssa.Value {
 			}
 			out = append(out, v)
 		case *ssa.Call:
-			if f := TransparentCallee(x); f != nil && f.Signature.Results().Len() == 1 && !IsErrorType(x.Type()) {
+			if f := TransparentCallee(x); transparent && f != nil && f.Signature.Results().Len() == 1 && !IsErrorType(x.Type()) {
 				for _, r := range Returns(f) {
 					visit(r.Results[0])
 				}
@@ -376,7 +382,7 @@ func Sources(v ssa.Value) []ssa.Value {
 			}
 			out = append(out, v)
 		case *ssa.Parameter:
-			if sites, idx := transparentCallSites(x); len(sites) > 0 {
+			if sites, idx := transparentCallSites(x); transparent && len(sites) > 0 {
 				for _, site := range sites {
 					if idx < len(site.Args) {
 						visit(site.Args[idx])
@@ -1165,7 +1171,7 @@ func intBounds(v ssa.Value, conds []CondEdge, seen map[ssa.Value]bool) (lo, hi i
 			}
 		}
 		k, isC := ConstInt(y)
-		if !isC || stripConv(x) != v {
+		if !isC || !sameQuantity(stripConv(x), v) {
 			continue
 		}
 		if !e.Branch { // negate
@@ -1215,7 +1221,7 @@ func intBounds(v ssa.Value, conds []CondEdge, seen map[ssa.Value]bool) (lo, hi i
 			continue
 		}
 		k, isC := ConstInt(bo.Y)
-		if !isC || stripConv(bo.X) != v {
+		if !isC || !sameQuantity(stripConv(bo.X), v) {
 			continue
 		}
 		if ((bo.Op == token.EQL && !e.Branch) || (bo.Op == token.NEQ && e.Branch)) && okLo && k == lo {
@@ -1475,4 +1481,19 @@ func MinSelect(v ssa.Value, same func(x, y ssa.Value) bool) (a, b ssa.Value, ok 
 		}
 	}
 	return leaves[0].Val, leaves[1].Val, true
+}
+
+// sameQuantity: the same SSA value, or two loads of the same field path of a parameter (`req.PageSize` read twice;
+// request messages are not written between the reads).
+func sameQuantity(a, b ssa.Value) bool {
+	if a == b {
+		return true
+	}
+	la, ok1 := a.(*ssa.UnOp)
+	lb, ok2 := b.(*ssa.UnOp)
+	if !ok1 || !ok2 || la.Op != token.MUL || lb.Op != token.MUL {
+		return false
+	}
+	pa, pb := AccessPath(la), AccessPath(lb)
+	return pa != "" && pa == pb && strings.Contains(pa, ".")
 }
